@@ -5,8 +5,9 @@
    tables are regenerated from chython/periodictable/group*.py on every run (Gen.Elements). *)
 From Coq Require Import ZArith List String Bool Permutation.
 From Model Require Import PyBase Graph PeriodicTable Valence ValenceArom.
-From Gen Require Import Elements ValenceSrc.
-From Proofs Require Import ValenceProofs ValenceExt ValenceImpl ValenceSrcProofs.
+From Model Require Import ValenceSrcLib.
+From Gen Require Import Elements ValenceSrc ValenceBodies.
+From Proofs Require Import ValenceProofs ValenceExt ValenceImpl ValenceSrcProofs ValenceBodiesProofs ValenceStd ValenceTotalsSrc ValenceEdits ValenceStdSrc.
 Import ListNotations.
 Open Scope string_scope.
 Open Scope Z_scope.
@@ -438,3 +439,125 @@ Theorem C04_recalc_loop_fresh_example :
   (exists g', recalc_loop propane_stale [1; 2] = Ok g' /\ fresh_on g' [1; 2] = true /\ fresh_on g' [1; 2; 3] = false /\ stored_ok g' = false).
 Proof. exact recalc_loop_fresh_example. Qed.
 Print Assumptions C04_recalc_loop_fresh_example.
+
+(* ==== round 4: tie by translation -- Gen.ValenceBodies holds the BODIES of Element._compiled_valence_rules, Element.valence_rules and
+        Element.atomic_mass translated statement by statement by tools/gen_valence_bodies.py on every run; the hand-written model
+        equals the translated source on every element of the regenerated table ==== *)
+Theorem C04_compiled_rules_follow_source : forall e, In e elements -> src_compiled_valence_rules e = compiled_rules e.
+Proof. exact compiled_rules_follow_source. Qed.
+Print Assumptions C04_compiled_rules_follow_source.
+
+Theorem C04_valence_rules_follow_source : forall e c r v, In e elements -> src_valence_rules e c r v = valence_rules e c r v.
+Proof. exact valence_rules_follow_source. Qed.
+Print Assumptions C04_valence_rules_follow_source.
+
+Theorem C04_valence_rules_source_example :
+  src_valence_rules el_C 0 false 3 = Ok [mkRule [] [] 1] /\ src_valence_rules el_C 0 false 5 = Err ValenceError /\ In el_C elements.
+Proof. exact valence_rules_source_example. Qed.
+Print Assumptions C04_valence_rules_source_example.
+
+Theorem C04_atomic_mass_follows_source : forall e iso, In e elements -> src_atomic_mass e iso = atomic_mass_e24 (e_num e) iso.
+Proof. exact atomic_mass_follows_source. Qed.
+Print Assumptions C04_atomic_mass_follows_source.
+
+(* a labelled atom weighs its isotope, never the natural average - also under the label of the most common isotope *)
+Theorem C04_labelled_mass_is_isotope_mass : forall e i m, In e elements -> zget (e_mass e) i = Some m ->
+  src_atomic_mass e (Some i) = Ok (dec_scale m 12 * 10 ^ 12) /\ atomic_mass_e24 (e_num e) (Some i) = Ok (dec_scale m 12 * 10 ^ 12).
+Proof. exact labelled_mass_is_isotope_mass. Qed.
+Print Assumptions C04_labelled_mass_is_isotope_mass.
+
+Theorem C04_common_isotope_label_matters :
+  e_mdl el_C = 12 /\ atomic_mass_e24 6 (Some 12) = Ok (12 * 10 ^ 24) /\ atomic_mass_e24 6 None = Ok 12010735898500000000000000 /\
+  src_atomic_mass el_C (Some 12) = Ok (12 * 10 ^ 24) /\ src_atomic_mass el_C (Some 1) = Err KeyError.
+Proof. exact common_isotope_label_matters. Qed.
+Print Assumptions C04_common_isotope_label_matters.
+
+(* ==== round 4: the rule engine of standardize() recalculates the atoms it collected (`for n in hs: self.calc_implicit(n)`): selective
+        recalculation leaves EVERY atom fresh iff hs covers every atom whose valence state changed ==== *)
+Theorem C04_selective_recalc_fresh : forall g0 g1 hs g2,
+  (forall k, In k (ids g0) -> fresh_at g0 k) ->
+  ids g1 = ids g0 ->
+  (forall k, In k (ids g1) -> ~ In k hs ->
+     option_map a_h (atom_of g1 k) = option_map a_h (atom_of g0 k) /\ calc_implicit g1 k = calc_implicit g0 k) ->
+  recalc_loop g1 hs = Ok g2 ->
+  ids g2 = ids g1 /\ forall k, In k (ids g2) -> fresh_at g2 k.
+Proof. exact selective_recalc_fresh. Qed.
+Print Assumptions C04_selective_recalc_fresh.
+
+Theorem C04_calc_implicit_view : forall g g' k,
+  option_map (fun a => (a_num a, a_chg a, a_rad a)) (atom_of g k) = option_map (fun a => (a_num a, a_chg a, a_rad a)) (atom_of g' k) ->
+  option_map (nview_of g) (zget (m_adj g) k) = option_map (nview_of g') (zget (m_adj g') k) ->
+  calc_implicit g k = calc_implicit g' k.
+Proof. exact calc_implicit_view. Qed.
+Print Assumptions C04_calc_implicit_view.
+
+Theorem C04_selective_recalc_needs_all :
+  fresh_on methylnickel [1; 2] = true /\
+  (exists g, recalc_loop methylnickel_coordinate [1; 2] = Ok g /\ fresh_on g [1; 2] = true /\ stored_ok g = true /\ check_valence g = [] /\
+             map (fun na => a_h (snd na)) (m_atoms g) = [Some 4; Some 0]) /\
+  (exists g, recalc_loop methylnickel_coordinate [1] = Ok g /\ fresh_on g [1] = true /\ fresh_on g [1; 2] = false /\ stored_ok g = false /\
+             check_valence g = [2] /\ calc_implicit g 2 = Ok (Some 0)).
+Proof. exact selective_recalc_needs_all. Qed.
+Print Assumptions C04_selective_recalc_needs_all.
+
+(* ==== round 4: the totals against their bodies translated from chython/containers/molecule.py on every run, for EVERY molecule ==== *)
+Theorem C04_molecular_charge_follows_source : forall g, src_molecular_charge g = Ok (molecular_charge g).
+Proof. exact molecular_charge_follows_source. Qed.
+Print Assumptions C04_molecular_charge_follows_source.
+
+Theorem C04_is_radical_follows_source : forall g, src_is_radical g = Ok (is_radical g).
+Proof. exact is_radical_follows_source. Qed.
+Print Assumptions C04_is_radical_follows_source.
+
+Theorem C04_molecular_mass_follows_source : forall g, src_molecular_mass g = molecular_mass_e24 g.
+Proof. exact molecular_mass_follows_source. Qed.
+Print Assumptions C04_molecular_mass_follows_source.
+
+Theorem C04_brutto_follows_source : forall g, src_brutto g = brutto g.
+Proof. exact brutto_follows_source. Qed.
+Print Assumptions C04_brutto_follows_source.
+
+Theorem C04_totals_source_example :
+  src_brutto methanol13 = Ok [("C"%string, 1); ("O"%string, 1); ("H"%string, 4)] /\ src_molecular_charge methanol13 = Ok 0 /\
+  src_is_radical methanol13 = Ok false /\ src_molecular_mass methanol13 = molecular_mass_e24 methanol13 /\
+  exists m, src_molecular_mass methanol13 = Ok m /\ 33 * 10 ^ 24 < m < 34 * 10 ^ 24.
+Proof. exact totals_source_example. Qed.
+Print Assumptions C04_totals_source_example.
+
+(* ==== round 4: the edits of the rule engine of standardize() (charge / radical flag of the atom_fix atoms, order or new bond for the bonds_fix
+        pairs) followed by the recalculation of a set hs that contains every touched atom leave EVERY atom fresh ==== *)
+Theorem C04_edit_keeps_others : forall g e k, ~ In k (touched e) ->
+  ids (apply_edit g e) = ids g /\
+  option_map a_h (atom_of (apply_edit g e) k) = option_map a_h (atom_of g k) /\
+  calc_implicit (apply_edit g e) k = calc_implicit g k.
+Proof. exact edit_keeps_others. Qed.
+Print Assumptions C04_edit_keeps_others.
+
+Theorem C04_edits_recalc_fresh : forall g0 es hs g2,
+  (forall k, In k (ids g0) -> fresh_at g0 k) ->
+  (forall e k, In e es -> In k (touched e) -> In k hs) ->
+  recalc_loop (apply_edits g0 es) hs = Ok g2 ->
+  ids g2 = ids g0 /\ forall k, In k (ids g2) -> fresh_at g2 k.
+Proof. exact edits_recalc_fresh. Qed.
+Print Assumptions C04_edits_recalc_fresh.
+
+Theorem C04_edits_recalc_fresh_example :
+  fresh_on nickel_carbonyl [1; 2; 3] = true /\ check_valence nickel_carbonyl = [2; 3] /\
+  exists g, recalc_loop (apply_edits nickel_carbonyl carbonyl_edits) [1; 2; 3] = Ok g /\ fresh_on g [1; 2; 3] = true /\ check_valence g = [] /\
+            map (fun na => (a_chg (snd na), a_h (snd na))) (m_atoms g) = [(-1, Some 0); (1, Some 0); (0, Some 0)] /\
+            bond_of g 3 1 = Some (mkBond 8 None).
+Proof. exact edits_recalc_fresh_example. Qed.
+Print Assumptions C04_edits_recalc_fresh_example.
+
+(* ==== round 4: what the engine collects for recalculation, re-read from the source of Standardize.__standardize on every run ==== *)
+Theorem C04_std_engine_writes :
+  src_std_afix_writes = ["a._charge"%string; "a._is_radical"%string] /\
+  src_std_bfix_writes = ["b._order"%string; "bonds[m][n]"%string; "bonds[n][m]"%string].
+Proof. exact std_engine_writes. Qed.
+Print Assumptions C04_std_engine_writes.
+
+Theorem C04_std_engine_collects_touched :
+  (forall n c r, incl (touched (EState n c r)) (atoms_named src_std_afix_collects n 0)) /\
+  (forall n m o, incl (touched (EOrder n m o)) (atoms_named src_std_bfix_collects n m)).
+Proof. exact std_engine_collects_touched. Qed.
+Print Assumptions C04_std_engine_collects_touched.
